@@ -660,7 +660,7 @@ Section Send.
   Lemma step_preserves (sv : server) evs0 o : SInv sv evs0 ->
     exists sv' ev, step sv o = Ok (sv', ev) /\ SInv sv' (evs0 ++ ev).
   Proof.
-    intros HI. destruct o as [new fin|is_stream binary fs a b|id a b|id|id a maxr fs|id idx|id t].
+    intros HI. destruct o as [new fin|is_stream binary fs a b|id a b|id|id a maxr fs|id idx|id t|].
     - destruct (step_tick sv evs0 new fin HI) as [rs [_ [Hs [HI' _]]]]. cbv zeta in *. eauto.
     - destruct HI as [Hlive [Hnd Hbelow]]. cbn [Stream.step]. eexists _, _. split; [reflexivity|].
       assert (Hn : no_frames [EReplyNew (M:=M) (sv_next_id sv)]) by (apply no_frames_single; discriminate).
@@ -746,6 +746,12 @@ Section Send.
         - exact Hnd.
         - apply (frames_below_no_frames (sv_next_id sv)); [exact Hbelow|exact Hn|lia]. }
       destruct (find_stream id (sv_streams sv)); eexists _, _; (split; [reflexivity|]); apply Hgen; apply no_frames_single; discriminate.
+    - destruct HI as [Hlive [Hnd Hbelow]]. cbn [Stream.step]. eexists _, _. split; [reflexivity|].
+      assert (Hn : no_frames [EErr (M:=M)]) by (apply no_frames_single; discriminate).
+      split; [|split].
+      + apply Forall_forall. intros x Hx. apply (live_ok_weaken _ (sv_next_id sv)); [exact (proj1 (Forall_forall _ _) Hlive x Hx)|exact Hn|lia].
+      + exact Hnd.
+      + apply (frames_below_no_frames (sv_next_id sv)); [exact Hbelow|exact Hn|lia].
   Qed.
 
   (* no history of commands and arrivals makes the stream machinery panic; the invariant holds throughout *)
@@ -928,6 +934,75 @@ Section Send.
     exact (proj1 (proj1 (proj1 (Forall_forall _ _) Hlive s Hs))).
   Qed.
 
+  (* ------------------------------------------------------------------ rejected commands *)
+  (* the replies that tell the client that the command failed *)
+  Definition is_error_reply (e : event) : bool :=
+    match e with EErr => true | EReplyLookup _ None => true | _ => false end.
+
+  Lemma no_error_in_frames (fr : list frame) : existsb is_error_reply (map (@EFrame M) fr) = false.
+  Proof. induction fr as [|f r IH]; [reflexivity|]. cbn [map existsb is_error_reply]. exact IH. Qed.
+
+  (* whatever the command (window change, stop, search, lookup, a rejected request; known or unknown id): if it is
+     answered with an error, the server state - every stream's id, window, sent range, index, the id counter -
+     is exactly what it was, and the error reply is the only thing sent *)
+  Theorem rejected_command_changes_nothing (sv sv' : server) o ev :
+    step sv o = Ok (sv', ev) -> existsb is_error_reply ev = true ->
+    sv' = sv /\ (ev = [EErr] \/ exists id, ev = [EReplyLookup id None]).
+  Proof.
+    intros Hs He. destruct o as [new fin|is_stream binary fs a b|id a b|id|id a maxr fs|id idx|id t|]; cbn [Stream.step] in Hs.
+    - destruct (tick_streams (sv_all sv ++ new) fin (sv_streams sv)) as [r| |]; cbn [bind] in Hs; try discriminate.
+      inversion Hs; subst sv' ev. rewrite no_error_in_frames in He. discriminate.
+    - inversion Hs; subst sv' ev. discriminate.
+    - destruct (find_stream id (sv_streams sv)); inversion Hs; subst sv' ev; [discriminate|auto].
+    - destruct (find_stream id (sv_streams sv)); inversion Hs; subst sv' ev; [discriminate|auto].
+    - destruct (find_stream id (sv_streams sv)) as [s0|].
+      + destruct (stream_search (sv_all sv) s0 a maxr fs) as [r| |]; cbn [bind] in Hs; try discriminate.
+        inversion Hs; subst sv' ev. discriminate.
+      + inversion Hs; subst sv' ev. auto.
+    - destruct (find_stream id (sv_streams sv)) as [s0|]; inversion Hs; subst sv' ev; [|auto].
+      split; [reflexivity|]. right. exists id.
+      destruct (if sort_by_time then lookup_index_sorted index_of (sv_all sv) s0 idx else lookup_index index_of (sv_all sv) s0 idx);
+        [discriminate|reflexivity].
+    - destruct (find_stream id (sv_streams sv)); inversion Hs; subst sv' ev; [discriminate|auto].
+    - inversion Hs; subst sv' ev. auto.
+  Qed.
+
+  (* per command: a rejected one is the identity *)
+  Corollary rejected_request_is_identity (sv : server) : step sv OReject = Ok (sv, [EErr]).
+  Proof. reflexivity. Qed.
+  Corollary window_change_unknown_id_is_identity (sv : server) id a b :
+    find_stream id (sv_streams sv) = None -> step sv (OWindow id a b) = Ok (sv, [EErr]).
+  Proof. intros H. cbn [Stream.step]. rewrite H. reflexivity. Qed.
+  Corollary stop_unknown_id_is_identity (sv : server) id :
+    find_stream id (sv_streams sv) = None -> step sv (OStop id) = Ok (sv, [EErr]).
+  Proof. intros H. cbn [Stream.step]. rewrite H. reflexivity. Qed.
+  Corollary search_unknown_id_is_identity (sv : server) id a maxr fs :
+    find_stream id (sv_streams sv) = None -> step sv (OSearch id a maxr fs) = Ok (sv, [EErr]).
+  Proof. intros H. cbn [Stream.step]. rewrite H. reflexivity. Qed.
+  Corollary lookup_unknown_id_is_identity (sv : server) id x :
+    find_stream id (sv_streams sv) = None ->
+    step sv (OLookupIdx id x) = Ok (sv, [EErr]) /\ step sv (OLookupTime id x) = Ok (sv, [EErr]).
+  Proof. intros H. cbn [Stream.step]. rewrite H. split; reflexivity. Qed.
+
+  (* so after any run of rejected commands the announced ids are still the ids of the streams: a later valid
+     command on an announced id finds its stream, with the window and sent range it had *)
+  Theorem rejected_commands_keep_streams (sv : server) (ops : list (op M)) sv' evs :
+    (forall o, In o ops -> o = OReject \/ (exists id, (o = OStop id \/ (exists a b, o = OWindow id a b)) /\ find_stream id (sv_streams sv) = None)) ->
+    run sv ops = Ok (sv', evs) -> sv' = sv /\ evs = map (fun _ => EErr) ops.
+  Proof.
+    revert sv' evs. induction ops as [|o r IH]; intros sv' evs Hall Hr; cbn [Stream.run] in Hr.
+    - inversion Hr; subst. auto.
+    - assert (Hs : step sv o = Ok (sv, [EErr])).
+      { destruct (Hall o (or_introl eq_refl)) as [->|[id [[->|[a [b ->]]] Hn]]].
+        - reflexivity.
+        - apply stop_unknown_id_is_identity; exact Hn.
+        - apply window_change_unknown_id_is_identity; exact Hn. }
+      rewrite Hs in Hr. cbn [bind fst snd] in Hr.
+      destruct (run sv r) as [[sv2 e2]| |] eqn:Hr2; cbn [bind fst snd] in Hr; try discriminate.
+      inversion Hr; subst sv' evs. destruct (IH sv2 e2 (fun o' Ho' => Hall o' (or_intror Ho')) eq_refl) as [E1 E2].
+      subst. split; reflexivity.
+  Qed.
+
   (* ------------------------------------------------------------------ ids are announced before they are used *)
   Fixpoint well_announced (seen : list N) (evs : list event) : Prop :=
     match evs with
@@ -966,7 +1041,7 @@ Section Send.
     Forall (pre_ok (sv_all sv)) (sv_streams sv) ->
     well_announced seen ev /\ (forall s, In s (sv_streams sv') -> In (s_id s) (announced ev ++ seen)).
   Proof.
-    intros Hs _ Hseen Hpre. destruct o as [new fin|is_stream binary fs a b|id a b|id|id a maxr fs|id idx|id t]; cbn [Stream.step] in Hs.
+    intros Hs _ Hseen Hpre. destruct o as [new fin|is_stream binary fs a b|id a b|id|id a maxr fs|id idx|id t|]; cbn [Stream.step] in Hs.
     - assert (Hpre' : Forall (pre_ok (sv_all sv ++ new)) (sv_streams sv)).
       { apply Forall_forall. intros s Hin. pose proof (proj1 (Forall_forall _ _) Hpre s Hin) as [H1 [H2 H3]].
         split; [apply inv_arrive; exact H1|]. split; [apply sent_ok_arrive; exact H2|exact H3]. }
@@ -1005,6 +1080,7 @@ Section Send.
       + inversion Hs; subst sv' ev. cbn [well_announced announced app]. split; [exact I|exact Hseen].
     - destruct (find_stream id (sv_streams sv)); inversion Hs; subst sv' ev; cbn [well_announced announced app]; (split; [exact I|exact Hseen]).
     - destruct (find_stream id (sv_streams sv)); inversion Hs; subst sv' ev; cbn [well_announced announced app]; (split; [exact I|exact Hseen]).
+    - inversion Hs; subst sv' ev. cbn [well_announced announced app]. split; [exact I|exact Hseen].
   Qed.
 
   (* no frame carries a stream id before the reply that announced that id *)
